@@ -25,9 +25,9 @@ twin("write_text_utf8", "Path.write_text with explicit encoding is the same atom
 twin("path_open_utf8", "Path(...).open('w', encoding=...) instead of open()",
      [(J + "cli.py", '''            with open(self.output_file, "w", encoding="utf-8") as f:''',
        '''            with Path(self.output_file).open("w", encoding="utf-8") as f:''')])
-twin("percent_cross_multiplied", "ratio threshold cross-multiplied (also avoids division by an empty union)",
-     [(J + "registry.py", "return len(fields_a & fields_b) / len(fields_a | fields_b) >= self.percent_fields",
-       "return len(fields_a & fields_b) >= self.percent_fields * len(fields_a | fields_b)")])
+twin("percent_threshold_on_the_left", "cross-multiplied percent threshold with the operands swapped",
+     [(J + "registry.py", "return len(fields_a & fields_b) >= self.percent_fields * len(fields_a | fields_b)",
+       "return self.percent_fields * len(fields_a | fields_b) <= len(fields_a & fields_b)")])
 twin("threshold_operands_swapped", "p <= ratio",
      [(J + "registry.py", "return len(fields_a & fields_b) >= self.number_fields",
        "return self.number_fields <= len(fields_a & fields_b)")])
@@ -67,6 +67,7 @@ twin("samples_appended_in_loop", "per-sample append loop instead of extend",
 twin("output_local_renamed", "the generated text is bound to another local name",
      [(J + "cli.py", "        output = self.version_string + generate_code(", "        text = self.version_string + generate_code("),
       (J + "cli.py", "                f.write(output)", "                f.write(text)"),
+      (J + "cli.py", '            output.encode("utf-8")\n', '            text.encode("utf-8")\n'),
       (J + "cli.py", "            return output\n", "            return text\n")])
 twin("exit_returns_false", "__exit__ returns False explicitly",
      [(J + "dynamic_typing/models_meta.py", "            self.data.context = self._old\n",
